@@ -224,6 +224,43 @@ def suite_by_name(name):
     return next(s for s in SUITES if s.name == name)
 
 
+def long_cells(r):
+    """a very large group: identifier cells far beyond the csv module's default field limit (131072 characters) are written, read back
+    and filtered like any other cell (monitor only: the strings are too long for a Coq literal)"""
+    import tempfile
+    from picked_group_fdr.results import ProteinGroupResult, ProteinGroupResults
+    from picked_group_fdr.parsers import maxquant as mqp
+    from picked_group_fdr.pipeline import filter_fdr_maxquant as f
+    d = tempfile.mkdtemp(prefix="c13long_", dir=core.scratch())
+    n = 0
+    for nprot in (3, 7000):
+        ids = ";".join(f"sp|Q{i:05d}|PROT{i:05d}_HUMAN" for i in range(nprot))
+        pgr = ProteinGroupResults([ProteinGroupResult(proteinIds=ids, majorityProteinIds=ids, peptideCountsUnique=";".join(["1"] * nprot),
+                                                      bestPeptide="PEPTIDEK", numberOfProteins=nprot, qValue=0.001, score=7.5),
+                                   ProteinGroupResult(proteinIds="REV__X", majorityProteinIds="REV__X", peptideCountsUnique="1",
+                                                      bestPeptide="KEDITPEP", numberOfProteins=1, qValue=0.5, score=1.5, reverse="+")])
+        out, flt = os.path.join(d, f"pg_{nprot}.txt"), os.path.join(d, f"pg_{nprot}_filtered.txt")
+        pgr.write(out)
+        n += 1
+        try:
+            back = mqp.parse_mq_protein_groups_file(out)
+            got = [[x.proteinIds, float(x.qValue), float(x.score)] for x in back]
+            f.filterProteinGroupsAtFDR([out], flt, 0.01)
+            kept = read_cells(flt)
+            problem = None
+            if got != [[ids, 0.001, 7.5], ["REV__X", 0.5, 1.5]]:
+                problem = "read-back differs from the written results"
+            elif len(kept) != 2 or kept[1][0] != ids or kept[1] != read_cells(out)[1]:
+                problem = "the FDR filter does not keep the row unchanged"
+        except Exception as e:
+            problem = f"{type(e).__name__}: {e}"[:160]
+        if problem:
+            r.violation("property-failure", {"suite": "long_cells", "proteins_in_the_group": nprot, "longest_cell_chars": len(ids), "problem": problem},
+                        True, f"long_cells: a table with an identifier cell of {len(ids)} characters: {problem}")
+            break
+    return n
+
+
 def run(r: core.Runner):
     r.assumptions += [
         "repr(float) / float(str) round-trips (language guarantee); float(cell) <= cutoff of the filter is a tabulated oracle",
@@ -232,3 +269,4 @@ def run(r: core.Runner):
     ]
     for s in SUITES:
         r.run_suite(s, max_report=2)
+    r.traces = (r.traces or 0) + long_cells(r)
